@@ -51,6 +51,7 @@ type CallGraph struct {
 func (p *Prog) CG() *CallGraph {
 	if p.cg == nil {
 		p.cg = buildCG(p)
+		cgByProg.Store(p.SSA, p.cg)
 	}
 	return p.cg
 }
